@@ -12,7 +12,8 @@ def run(ctx):
     # 1. design level + model -> implementation: TLC checks RoundTrip (Decode(x) accepted => Encode(Decode(x)) = x) over
     #    the family of abstract encodings (one node of a valid object respelt / reshaped) and exports bytes + verdicts;
     #    the real decoders must give the same verdicts, re-encode accepted inputs byte-identically, report Size() = length
-    #    of the canonical encoding, stable id/hash, and survive every accessor.
+    #    of the canonical encoding, stable id/hash, and survive every accessor. The stream entry points
+    #    (rlp.NewStream(reader, limit).Decode, rlp.Decode) get the same cases: verdict and bytes consumed per Codec!StreamDecode.
     cases, tables = cc.model_cases(ctx, "MC_Codec_quick.cfg", "single-site family", 600)
     r1 = cc.replay(ctx, binp, cases, "singles")
     demos.append(cc.replay_binding_demo(ctx, binp, cases))
@@ -47,6 +48,12 @@ def run(ctx):
     cov["mutant_batches"] = len(mres)
     cov["mutation_ops"] = mres[0]["extra"]["ops"] if mres else {}
     cov["id_binding_perturbations"] = ib["evaluations"] if ib else 0
+    cov["stream_entry_point_cases"] = sum(r["extra"].get("stream_cases", 0) for r in results)
+    cov["inputs_too_long_for_the_trace"] = sum(m["extra"].get("inputs_too_long_for_the_trace", 0) for m in mres)
+    cov["observations_not_judged"] = {
+        "tx_decoded_into_an_already_used_Transaction_keeps_the_old_memoised_id":
+            sum(r["extra"].get("tx_decoded_into_used_object_keeps_old_id", 0) for r in results)
+            + sum(m["extra"].get("tx_decoded_into_used_object_keeps_old_id", 0) for m in mres)}
     tb = __import__("json").load(open(tables))
     cov["id_binding_base_objects"] = {"tx": len(tb["txBases"]), "header": len(tb["headerBases"])}
     cov["binding_demo"] = "; ".join(demos)
@@ -68,4 +75,17 @@ def run(ctx):
         "inputs are < 16 MB (length-of-length > 3 bytes is treated as larger than the input)",
         "the byte space outside the enumerated family is sampled by seeded mutants, not enumerated",
         "reserved.Unused items and rlp.RawValue contents are opaque: they round-trip byte-identically, their inner form is not judged",
+        "stream entry points are exercised over a bytes.Reader with limit len / len-1 / 0 and rlp.Decode (what p2p msg.Decode does with "
+        "limit = msg.Size); an UNLIMITED reader (documented by the rlp package as able to allocate the declared size) is not used by thor "
+        "for untrusted input and is not exercised",
+        "decode targets of tx.Transaction are fresh objects (as everywhere in thor): Transaction.setDecoded keeps the memoised id/hash of "
+        "an already used object - observed, counted in observations_not_judged, not judged; Header and Block decode replace the whole "
+        "object and ARE judged when decoded into a used one",
+        "termination oracle: one input (all entry points + re-encoding + accessors) gets 1 s + 2 us/byte and 64 MB + 128 B/byte; "
+        "exceeded twice in a row = nonterminating:<kind>, exceeded once = infrastructure noise (exit 2)",
+        "the independent list root (harness/cmd/codec/refroot.go: RLP + hex-prefix + blake2b) is the reference for trie.DeriveRoot",
     ]
+    if cov.get("termination_budget", {}).get("flaky", 0) > 0 and not ctx.violations:
+        from verifkit import Infra
+        raise Infra("%d input(s) exceeded the decode time/allocation budget once but not when repeated (loaded machine?): not an "
+                    "observation on the real code" % cov["termination_budget"]["flaky"])
